@@ -33,13 +33,17 @@ SubRows(k) == CASE k = "source" -> SourceProps [] k = "endpoints" -> EndpointsPr
 (* a lone language-tagged string returns untagged; IRI lists are item      *)
 (* lists; value/pointer form is not part of a value's identity.            *)
 (***************************************************************************)
+\* The struct a package-level decoder builds is chosen by the type name, not by the struct that was written: an Object that
+\* carries the name of a larger struct of its family tree (ObjectNew(PlaceType), an Object decoded from a Person document)
+\* comes back as that struct holding the same properties.  Values without a (vocabulary) type name keep their struct.
+HomeOf(v) == IF "type" \in DOMAIN v.p /\ v.p.type.k = "str" /\ v.p.type.s # "" /\ GoType(v.p.type.s) # "none" THEN GoType(v.p.type.s) ELSE v.g
 RECURSIVE NFItem(_), NFProp(_, _), NFMap(_, _)
 NFItem(v) ==
   CASE v.k = "nil" -> v
     [] v.k = "iri" -> Iri(v.iri)          \* (an IRI held by pointer is the same IRI)
     [] v.k = "iris" -> ListOf(MapSeq(v.e, Iri))
     [] v.k = "list" -> ListOf([i \in 1..Len(v.e) |-> NFItem(v.e[i])])
-    [] v.k = "obj" -> [k |-> "obj", g |-> v.g, ptr |-> TRUE, p |-> NFMap(Props(v.g), v.p)]
+    [] v.k = "obj" -> [k |-> "obj", g |-> HomeOf(v), ptr |-> TRUE, p |-> NFMap(Props(v.g), v.p)]
 \* (a text list all of whose texts are empty is the empty normal form: absent)
 IsEmptyText(x) == x.k = "nlv" /\ \A i \in 1..Len(x.e) : x.e[i].t = ""
 \* (decided on the value as given, so that every property is normalised once: this definition is recursive through NFProp)
@@ -61,7 +65,7 @@ GFItem(v) ==
     [] v.k = "iri" -> Iri(v.iri)
     [] v.k = "iris" -> v
     [] v.k = "list" -> ListOf([i \in 1..Len(v.e) |-> GFItem(v.e[i])])
-    [] v.k = "obj" -> [k |-> "obj", g |-> v.g, ptr |-> TRUE, p |-> GFMap(Props(v.g), v.p)]
+    [] v.k = "obj" -> [k |-> "obj", g |-> HomeOf(v), ptr |-> TRUE, p |-> GFMap(Props(v.g), v.p)]
 GFMap(rows, p) == [t \in DOMAIN p |-> GFProp(RowKind(rows, t), p[t])]
 GFProp(kind, x) ==
   CASE kind \in {"item", "items"} -> GFItem(x)
